@@ -173,7 +173,8 @@ def main(argv=None):
     n_unknown = 0
     lines = []
     for fp, vs in by_fp.items():
-        v = vs[0]
+        # report the smallest recorded case of this fingerprint (shards are merged in shard order, not by size)
+        v = min(vs, key=lambda x: len(json.dumps(x.case, default=repr)))
         h = hashlib.sha1(fp.encode()).hexdigest()[:12]
         os.makedirs(rdir, exist_ok=True)
         path = os.path.join(rdir, f'{h}.json')
